@@ -1,6 +1,87 @@
-"""Python-layer obligations of the writer (C05, C06, C19) -- filled in below."""
+"""Python-layer obligations of the writer (C05, C06, C19): CrossHair on the real DigitalRFWriter methods with the extension replaced
+by a model stating what the E-LL checks prove about the C writer."""
+from vlib import chx
+
+TITLES = {
+    '_rf_write_step': 'rf_write (inductive step from any state with written + gaps == next): ValueError and nothing touched iff next_sample < next '
+                      'available; else returns one past the highest index written, written += n, gaps += skipped indices (zero-length writes included)',
+    '_rf_write_blocks_1': 'rf_write_blocks, 1 block (inductive step): ValueError before the library is called and state untouched iff malformed; else '
+                          'library receives well-formed blocks only, no partial commit, counters follow the recording',
+    '_rf_write_blocks_2': 'rf_write_blocks, 2 blocks (inductive step, gapped and continuous block-by-block mode): same',
+    '_rf_write_blocks_3': 'rf_write_blocks, 3 blocks (inductive step, gapped and continuous block-by-block mode): same',
+    '_rf_write_blocks_mismatch': 'rf_write_blocks: index arrays of different lengths are always refused before the library is called',
+    '_getters_after_close': 'last file / dir / timestamp and the counters remain available after close; writes after close raise IOError',
+    '_blocks_witness': 'reachability: an accepted two-block call is reachable',
+}
+
+REPLAY = '''
+from vlib import build
+import numpy as np, tempfile, os, shutil, sys, warnings
+warnings.simplefilter('ignore')
+drf = build.load_pkg()
+kw, kind = %r, %r
+cont = bool(kw.get('continuous', False))
+nxt, written = kw.get('nxt', 0), kw.get('written', kw.get('nxt', 0))
+d = tempfile.mkdtemp(); os.makedirs(d + '/ch')
+S = 10**10
+w = drf.DigitalRFWriter(d + '/ch', 'i2', 3600, 1000, S, 10, 1, 'u', is_complex=False, is_continuous=cont, marching_periods=False)
+bad = 0
+try:
+    if written > 0: w.rf_write(np.zeros((written, 1), dtype='i2'), next_sample=nxt - written)
+    elif nxt > 0: print('state (next=%%d, written=0) is not constructible through the API; replaying from a fresh writer' %% nxt); nxt = 0
+    pre = (w.get_next_available_sample(), w.get_total_samples_written(), w.get_total_gap_samples())
+    n = kw['n']
+    if kind == 'rf_write':
+        G, B = [pre[0] if kw['ns'] is None else kw['ns']], [0]
+        call = lambda: w.rf_write(np.ones((n, 1), dtype='i2'), kw['ns'])
+    else:
+        G = [kw[k] for k in ('g0', 'g1', 'g2') if k in kw]; B = [kw[k] for k in ('b0', 'b1', 'b2') if k in kw]
+        call = lambda: w.rf_write_blocks(np.ones((n, 1), dtype='i2'), G, B)
+    mal = len(G) != len(B) or G[0] < pre[0] or B[0] != 0 or any(B[i] >= max(n, 1) and n > 0 for i in range(len(B))) or \\
+        any(B[i-1] >= B[i] or G[i-1] >= G[i] or B[i]-B[i-1] > G[i]-G[i-1] for i in range(1, min(len(G), len(B))))
+    try:
+        ret = call(); rejected = False
+    except ValueError as e:
+        rejected = True; print('ValueError:', e)
+    except Exception as e:
+        rejected = None; print('unexpected', type(e).__name__, e)
+    post = (w.get_next_available_sample(), w.get_total_samples_written(), w.get_total_gap_samples())
+    if rejected is None: bad = 1
+    elif rejected: bad = (not mal) or post != pre
+    else:
+        new_next = (G[-1] + (n - B[-1])) if n > 0 else pre[0]
+        want = (new_next, pre[1] + n, new_next - (pre[1] + n))
+        print('returned', ret, 'counters', post, 'expected', want, 'malformed', mal)
+        bad = mal or post != want or ret != new_next
+finally:
+    try: w.close()
+    except Exception: pass
+    shutil.rmtree(d)
+sys.exit(1 if bad else 0)
+'''
 
 
-def c05_part(rep, st, tier): pass
-def c06_part(rep, st, tier): pass
-def c19_part(rep, st, tier): pass
+def _run(rep, tier, prefix):
+    res = chx.run_module('writer', per_condition_timeout=120 if tier == 'quick' else 600)
+    replays = {'_rf_write_step': lambda kw: REPLAY % (kw, 'rf_write')}
+    for k in ('_rf_write_blocks_1', '_rf_write_blocks_2', '_rf_write_blocks_3', '_rf_write_blocks_mismatch'):
+        replays[k] = lambda kw: REPLAY % (kw, 'blocks')
+    sigs = {k: prefix + '.py.' + k.strip('_') for k in TITLES}
+    chx.report(rep, res, {k: 'python writer: ' + v for k, v in TITLES.items()}, replays=replays, sigs=sigs)
+
+
+def c05_part(rep, st, tier):
+    rep.functions += ['DigitalRFWriter.rf_write', 'DigitalRFWriter.rf_write_blocks']
+    rep.assume('python layer: the extension is modelled by the C-level facts decided above (cursor update, rejection rule, continuous-mode '
+               'block-by-block writes); numpy index-array ops by a list-backed shim with uint64 wrap / int64 view; _cast_* helpers are identity')
+    _run(rep, tier, 'C05')
+
+
+def c19_part(rep, st, tier):
+    rep.functions += ['DigitalRFWriter.rf_write', 'DigitalRFWriter.rf_write_blocks', 'DigitalRFWriter.close / getters']
+    rep.assume('python layer: the extension is modelled by the C-level facts decided above; inductive step from any state with written + gaps == next')
+    _run(rep, tier, 'C19')
+
+
+def c06_part(rep, st, tier):
+    pass
